@@ -158,8 +158,10 @@ type Run struct {
 	clients  int
 	finished int
 	maxQueue int
-	submitted int
 	cbSeen   int
+	addrDone int
+	regions  map[int][]region
+	lateOps  []*OpRec
 
 	viol    []Violation
 	probes  map[string]int
@@ -313,9 +315,9 @@ func (r *Run) observe() {
 	// abstract state for the distinct-states measure
 	h := fmt.Sprintf("%d|%v|%d|%d|%s", n, cfg.stamps(), len(r.cbs), len(r.verifies), r.sim.ParkedLabels())
 	r.sim.NoteState(hashStr(h))
-	// callback queue occupancy bound
-	if q := r.submitted - r.cbSeen; q > r.maxQueue {
-		r.maxQueue = q
+	r.noteQueue()
+	if r.sc.Prop == "C02" {
+		r.addrOracle()
 	}
 }
 
@@ -457,7 +459,9 @@ func (r *Run) reporter(c *ClientSpec) {
 			ctx, cancel := r.opCtx(op, rec)
 			st.wa.Done(ctx)
 			r.end(rec, nil)
-			st.doneAt = r.sim.Step()
+			if ctx.Err() == nil {
+				st.doneAt = r.sim.Step()
+			}
 			cancel()
 			return
 		}
@@ -680,7 +684,9 @@ func (r *Run) blankClient(c *ClientSpec) {
 			ctx, cancel := r.opCtx(op, rec)
 			st.blank.Done(ctx)
 			r.end(rec, nil)
-			st.doneAt = r.sim.Step()
+			if ctx.Err() == nil {
+				st.doneAt = r.sim.Step()
+			}
 			cancel()
 			return
 		}
